@@ -157,12 +157,10 @@ IPv4Reassembler::key_type IPv4Reassembler::make_key(const IP* ip) const {
 }
 
 IPv4Reassembler::address_pair IPv4Reassembler::make_address_pair(IPv4Address addr1, IPv4Address addr2) const {
-    if (addr1 < addr2) {
-        return make_pair(addr1, addr2);
-    }
-    else {
-        return make_pair(addr2, addr1);
-    }
+    // Datagrams flowing in opposite directions are different datagrams (RFC 791
+    // identifies them by source, destination, protocol and identification), so 
+    // the pair must keep its direction: (source, destination)
+    return make_pair(addr1, addr2);
 }
 
 void IPv4Reassembler::clear_streams() {
